@@ -134,10 +134,8 @@ class NumpyShim:
             return ObjMatrix(np.array(data, dtype=object))
         return np.matrix(data, *a, **k)
 
-    def float64(self, v=0.0):
-        if is_sym(v):
-            return v
-        return np.float64(v)
+    float64 = np.float64
+    double = np.double
 
     def linspace(self, start, stop, num=50, endpoint=True, retstep=False, dtype=None):
         if is_sym(start) or is_sym(stop) or _symrun():
@@ -212,6 +210,18 @@ class NumpyShim:
         if _has_sym(a) or _has_sym(b):
             return np.frompyfunc(lambda x, y: sx_min(x, y), 2, 1)(a, b)
         return np.minimum(a, b)
+
+    def deg2rad(self, x):
+        if _has_sym(x):
+            import math as _m
+            return x * _m.pi / 180.0
+        return np.deg2rad(x)
+
+    def rad2deg(self, x):
+        if _has_sym(x):
+            import math as _m
+            return x / _m.pi * 180.0
+        return np.rad2deg(x)
 
     def isnan(self, x):
         if _has_sym(x):
